@@ -205,6 +205,71 @@ func combosPart(c *vf.Ctx) []int {
 	return dead
 }
 
+// reportStructuralDeadlock: a dead-lock outside the method combinations (sequential / aliasing / crossed calls).
+func reportStructuralDeadlock(c *vf.Ctx, where, dump string, rec any) {
+	fp, desc := deadlockFingerprint(gdump.Parse(dump))
+	c.Count("deadlocks_outside_combinations", 1)
+	c.Violation(fp, fmt.Sprintf("%s never returns (plain build, Go runtime: all goroutines are asleep); blocked: %s", where, desc), rec)
+}
+
+// aliasPart: the aliasing family, one case after the other in a plain-build child; a self-dead-lock kills the child,
+// is attributed to the marked case and the child is restarted behind it.
+func aliasPart(c *vf.Ctx) {
+	cases := aliasCases()
+	for lo := 0; lo < len(cases); {
+		res := c.RunChild(vf.ChildOpts{Name: "alias", Args: []string{strconv.Itoa(lo)}, Timeout: 5 * time.Minute})
+		idx, _ := strconv.Atoi(res.LastMark)
+		switch {
+		case res.Deadlock:
+			ac := cases[idx]
+			ac.What = "dead-lock"
+			c.Count("alias_cases_decided", 1)
+			reportStructuralDeadlock(c, ac.String(), res.Stderr, ac)
+			lo = idx + 1
+			continue
+		case res.TimedOut:
+			c.Inconclusive("alias child hit the watchdog at " + res.LastMark)
+		case res.ExitCode != 0:
+			c.Inconclusive(fmt.Sprintf("alias child died: exit %d %s", res.ExitCode, res.Fatal))
+		}
+		break
+	}
+	// crossed concurrent calls a.M(b) || b.N(a)
+	ps := crossPairs()
+	iters := c.Pick(400, 4000)
+	for lo := 0; lo < len(ps); {
+		res := c.RunChild(vf.ChildOpts{Name: "cross", Args: []string{strconv.Itoa(lo), strconv.Itoa(iters)}, Timeout: 10 * time.Minute})
+		idx, _ := strconv.Atoi(res.LastMark)
+		switch {
+		case res.Deadlock:
+			name := fmt.Sprintf("a.%s(b) || b.%s(a)", crossMethods[ps[idx][0]], crossMethods[ps[idx][1]])
+			c.Count("crossed_pairs_decided", 1)
+			reportStructuralDeadlock(c, name+" looped concurrently", res.Stderr, roundCase{Kind: "cross", Pattern: name, Seed: int64(idx), What: "dead-lock", Detail: trimDump(res.Stderr)})
+			lo = idx + 1
+			continue
+		case res.TimedOut:
+			c.Inconclusive("cross child hit the watchdog at pair " + res.LastMark)
+		case res.ExitCode != 0:
+			c.Inconclusive(fmt.Sprintf("cross child died: exit %d %s", res.ExitCode, res.Fatal))
+		}
+		break
+	}
+}
+
+// seqChildPart runs the sequential histories in a plain-build, timer-free child: they contain self-aliasing calls, and
+// a call that blocks for ever must end as a dead-lock verdict of the Go runtime, not hang the parent.
+func seqChildPart(c *vf.Ctx) {
+	res := c.RunChild(vf.ChildOpts{Name: "seq", Timeout: 14 * time.Minute})
+	switch {
+	case res.Deadlock:
+		reportStructuralDeadlock(c, "a sequential ds.Set / OrderedMap history (one goroutine per history)", res.Stderr, roundCase{Kind: "seq-deadlock", Pattern: "sequential histories", What: "dead-lock", Detail: trimDump(res.Stderr)})
+	case res.TimedOut:
+		c.Inconclusive("sequential child hit the watchdog")
+	case res.ExitCode != 0:
+		c.Inconclusive(fmt.Sprintf("sequential child died: exit %d %s", res.ExitCode, res.Fatal))
+	}
+}
+
 func linzPart(c *vf.Ctx) {
 	const W = 8
 	n := c.Pick(1500, 15000) // histories of each kind per child
@@ -311,6 +376,28 @@ func parseSkip(s string) map[int]bool {
 
 func child(c *vf.Ctx) {
 	switch c.Child {
+	case "seq":
+		seqPart(c)
+	case "alias":
+		lo, _ := strconv.Atoi(c.ChildArgs[0])
+		cases := aliasCases()
+		for idx := lo; idx < len(cases); idx++ {
+			c.Mark(strconv.Itoa(idx))
+			fp, what := runAliasCase(cases[idx])
+			c.Count("evaluations", 1)
+			c.Count("alias_cases_decided", 1)
+			c.Count("alias:"+cases[idx].Method+"("+cases[idx].Arg+")", 1)
+			c.Distinct("nontrivial", "alias:"+cases[idx].String())
+			if fp != "" {
+				cases[idx].What = what
+				c.Violation(fp, what, cases[idx])
+			}
+			c.FlushStats()
+		}
+	case "cross":
+		lo, _ := strconv.Atoi(c.ChildArgs[0])
+		iters, _ := strconv.Atoi(c.ChildArgs[1])
+		crossChild(c, lo, iters, "")
 	case "combos":
 		lo, _ := strconv.Atoi(c.ChildArgs[0])
 		hi, _ := strconv.Atoi(c.ChildArgs[1])
@@ -365,6 +452,7 @@ func child(c *vf.Ctx) {
 				c.FlushStats()
 			}
 		}
+		crossChild(c, 0, c.Pick(60, 400), "cross ")
 		c.Mark("linz")
 		linzChild(c, 100, c.Pick(300, 3000))
 		c.Mark("mapstress")
@@ -374,6 +462,14 @@ func child(c *vf.Ctx) {
 		c.Mark("racing rounds")
 		raceRounds(c, 100, c.Pick(400, 4000))
 		c.Count("race_build_mapstress_runs", 1)
+	case "alias-one":
+		idx, _ := strconv.Atoi(c.ChildArgs[0])
+		c.Mark(strconv.Itoa(idx))
+		ac := aliasCases()[idx]
+		if fp, what := runAliasCase(ac); fp != "" {
+			ac.What = what
+			c.Violation(fp, what, ac)
+		}
 	case "replay-combo":
 		idx, _ := strconv.Atoi(c.ChildArgs[0])
 		iters, _ := strconv.Atoi(c.ChildArgs[1])
@@ -432,7 +528,7 @@ func replay(c *vf.Ctx) {
 		if _, fp, what := runArith(r.Ops); fp != "" {
 			c.Violation(fp, what, r)
 		}
-	case "hist-atomic", "hist-set", "hist-map":
+	case "hist-atomic", "hist-set", "hist-map", "hist-diff":
 		// a recorded concurrent execution cannot be forced to repeat; the recorded history is re-judged
 		var r histCase
 		_ = json.Unmarshal(raw, &r)
@@ -461,6 +557,25 @@ func replay(c *vf.Ctx) {
 		} else if res.TimedOut || res.ExitCode != 0 {
 			c.Inconclusive("replay child: " + res.Fatal)
 		}
+	case "alias":
+		var r aliasCase
+		_ = json.Unmarshal(raw, &r)
+		idx := -1
+		for i, ac := range aliasCases() {
+			if ac.Method == r.Method && ac.Arg == r.Arg && fmt.Sprint(ac.Contents) == fmt.Sprint(r.Contents) {
+				idx = i
+			}
+		}
+		if idx < 0 {
+			c.Inconclusive("unknown alias case")
+			return
+		}
+		res := c.RunChild(vf.ChildOpts{Name: "alias-one", Args: []string{strconv.Itoa(idx)}, Timeout: 2 * time.Minute})
+		if res.Deadlock {
+			reportStructuralDeadlock(c, r.String(), res.Stderr, r)
+		}
+	case "cross", "seq-deadlock":
+		aliasPart(c)
 	case "round":
 		// a concurrent round cannot be forced to repeat: the racing rounds and histories are run again
 		res := c.RunChild(vf.ChildOpts{Name: "linz", Args: []string{"0", "1500"}, Timeout: 10 * time.Minute})
@@ -488,11 +603,10 @@ func run(c *vf.Ctx) {
 		return
 	}
 	c.SetRule("sequential: one evaluation = one history whose last step is compared with the reference model (exhaustive part: all histories up to length 3 over the ds.Set alphabet on 3 elements – Add/Delete/AddAll/DeleteAll/Replace with every subset and the set itself, Apply with every disjoint pair of subsets, Compute with every disjoint pair of at most one element each, Clear, Clone, serix round trip – and up to length 6 (quick) / 7 (thorough) over the OrderedMap alphabet on 3 keys) or one checked step of a seeded long history (6 elements; ds.Set 40 steps with all read-only methods against every subset after each step, OrderedMap 60 steps, SetArithmetic 12 calls with thresholds 1-3) or one ForEach/ForEachReverse/Range walk whose consumer mutates the structure (all combinations of up to 5 keys, keys deleted beforehand, position and action: delete current/next/later/last/earlier/first key, set new/existing key, clear) or one serix Encode/Decode round trip of a SerializableOrderedMap / ds.Set with composite key, value or element types (slices, maps, pointers to structs, nested structs, struct and array keys; 0-6 entries; empty and pre-filled destination) compared deeply with order; " +
-		"concurrent: one evaluation = one completed method combination (all 190 pairs and 1330 triples of 19 Set methods, looped on one set) or one recorded history judged by porcupine (Apply/Compute/Replace on a whole-set model; Add/Delete/Has and Set/Get/Has/Delete partitioned per key); " +
+		"concurrent: one evaluation = one completed method combination (all 190 pairs and 1330 triples of 19 Set methods, looped on one set) or one recorded history judged by porcupine (Apply/Compute/Replace on a whole-set model; Add/Delete/Has and Set/Get/Has/Delete partitioned per key; the reported diffs of Add/Delete/AddAll/DeleteAll/Apply/Compute/Replace decomposed per element), one aliasing call (every set-taking method with the receiver itself, its ReadOnly view or a clone as argument) or one crossed pair a.M(b) || b.N(a); " +
 		"distinct_nontrivial counts distinct (operation-class sequence, resulting order) signatures of sequential histories plus distinct completed method combinations")
-	stop := startProfile()
-	seqPart(c)
-	stop()
+	aliasPart(c)
+	seqChildPart(c)
 	c.Extra("phase_s_sequential", int(time.Since(startT).Seconds()))
 	dead := combosPart(c)
 	c.Extra("phase_s_combinations", int(time.Since(startT).Seconds()))
@@ -521,6 +635,9 @@ func run(c *vf.Ctx) {
 	c.Require("histories:hist-atomic", 1000)
 	c.Require("histories:hist-set", 1000)
 	c.Require("histories:hist-map", 1000)
+	c.Require("histories:hist-diff", 1000)
+	c.Require("alias_cases_decided", len(aliasCases()))
+	c.Require("crossed_pairs_decided", len(crossPairs()))
 	c.Require("overlapping_op_pairs", 10000)
 	c.Require("compute_factory_views", 1000)
 	c.Require("racing_rounds:delete-reinsert", 10000)
